@@ -548,6 +548,14 @@ fn run_single_program(
             let pid: i32 = child.into();
             if idx_cmd == 0 {
                 *pgid = pid;
+            }
+            unsafe {
+                // also put the child into the job's process group from
+                // here: the next stage joins that group, which must exist
+                // even if the first child has not run its own setpgid() yet.
+                libc::setpgid(pid, *pgid);
+            }
+            if idx_cmd == 0 {
                 unsafe {
                     // we need to wait pgid of child set to itself,
                     // before give terminal to it (for macos).
